@@ -14,6 +14,7 @@ DECIDED += '; R2 also: per-link overrides (top::Link::config) are written only t
 DECIDED += '; R1 also: the width of the latency window is computed with a saturating subtraction (a maximum below the inherited minimum is a reachable configuration)'
 DECIDED += '; R2 also: a setter stores its argument (no normalisation against the inherited minimum)'
 DECIDED += '; a release reschedules only held messages (shared C08-R14), in-flight messages are purged only by a partition (shared C03-R3), the receive slot is filled only when empty (shared C09-R6)'
+DECIDED += '; the datagram parked by readable() is handed out before anything still queued (shared C09-R10)'
 ASSUMPTIONS = ["std::cmp::min / Duration arithmetic behave as documented"]
 
 LAT = "turmoil::config::Latency"
